@@ -526,6 +526,10 @@ class _InternalBaseTracer(_InternalBaseTracerSuper, metaclass=MetaTracerStateMac
         setattr(builtins, FUNCTION_TRACING_ENABLED, True)
         setattr(builtins, TRACING_ENABLED, True)
 
+    def _is_outermost_sys_tracer(self) -> bool:
+        # nothing of ours to take off the system trace function, or ours is the one installed right now
+        return not self.has_sys_trace_events or sys_gettrace() is self.sys_tracer
+
     def _disable_tracing(self, check_enabled=True):
         has_sys_trace_events = self.has_sys_trace_events
         if check_enabled:
